@@ -18,6 +18,18 @@ Lemma fp_init_ok : fp_ok fp_init.
 Proof. unfold fp_ok, fp_init. cbn. split; [discriminate | intro H; exfalso; apply H; reflexivity]. Qed.
 Lemma hp_init_ok : hp_ok hp_init. Proof. left. split; reflexivity. Qed.
 
+Lemma op_not_layout : forall t s, is_tok T_OP s t = true -> is_layout t = false.
+Proof.
+  intros t s H. unfold is_tok in H. apply andb_prop in H as [H _]. apply Z.eqb_eq in H.
+  unfold is_layout. rewrite H. reflexivity.
+Qed.
+Lemma name_not_layout : forall t, ttyp t = T_NAME -> is_layout t = false.
+Proof. intros t H. unfold is_layout. rewrite H. reflexivity. Qed.
+
+Ltac done_ok := right; eexists; eexists; (split; [reflexivity |]); cbn;
+  repeat split; try (intro; discriminate); eauto;
+  try (let HH := fresh "HH" in intro HH; exfalso; apply HH; reflexivity).
+
 (* shape of a successful / failing ForParser step *)
 Lemma for_consume_cases : forall st t, fp_ok st ->
   (exists l c m, for_consume st t = PErr (User "SyntaxException" l c m)) \/
@@ -26,32 +38,28 @@ Lemma for_consume_cases : forall st t, fp_ok st ->
      (fp_for st' = fp_for st \/ (is_tok T_NAME "for" t = true /\ fp_for st' = Some (tstart t))) /\
      (* the annotation table is unchanged or gets one entry under the (defined) current marker *)
      (fp_anns st' = fp_anns st \/
-      exists p v, fp_for st' = Some p /\ fp_anns st' = dset opos_eqb (fp_anns st) (Some p) v)).
+      exists p v, fp_for st' = Some p /\ fp_anns st' = dset opos_eqb (fp_anns st) (Some p) v) /\
+     (* a token swallowed by the for-parser never carries line / block structure *)
+     (b = true -> is_layout t = false)).
 Proof.
   intros [s f a anns] t [OK1 OK2]. unfold for_consume, fp_ok in *. cbn [fp_state fp_for fp_ann fp_anns] in *.
+  assert (forall x, is_tok T_OP ":" t = x -> x = true -> is_layout t = false) as OPL
+    by (intros x E ->; eapply op_not_layout; exact E).
   destruct (is_tok T_NAME "for" t) eqn:F; cbn [fp_state fp_for fp_ann fp_anns].
   - change (S_START_SOON =? S_NOT_RUNNING) with false. cbn iota.
     destruct (is_tok T_OP ":" t) eqn:C.
-    + destruct a; [left; eauto |]. right. eexists. eexists. split; [reflexivity |]. cbn.
-      repeat split; try (intro; discriminate); auto.
-    + destruct (is_tok T_NAME "in" t) eqn:I.
-      * right. eexists. eexists. split; [reflexivity |]. cbn.
-        repeat split; try (intro; discriminate); eauto; try (intro H; exfalso; apply H; reflexivity).
-      * change (negb (S_START_SOON =? S_RUNNING)) with true. cbn iota.
-        right. eexists. eexists. split; [reflexivity |]. cbn. repeat split; try (intro; discriminate); auto.
-  - destruct (s =? S_NOT_RUNNING) eqn:S1.
-    + right. eexists. eexists. split; [reflexivity |]. cbn. repeat split; auto.
-    + apply Z.eqb_neq in S1. specialize (OK2 S1). destruct f as [p |]; [| exfalso; apply OK2; reflexivity].
-      destruct (is_tok T_OP ":" t) eqn:C.
-      * destruct a; [left; eauto |]. right. eexists. eexists. split; [reflexivity |]. cbn.
-        repeat split; try (intro; discriminate); auto.
-      * destruct (is_tok T_NAME "in" t) eqn:I.
-        -- right. eexists. eexists. split; [reflexivity |]. cbn.
-           repeat split; try (intro; discriminate); eauto; try (intro H; exfalso; apply H; reflexivity).
-        -- destruct (s =? S_RUNNING) eqn:S3; cbn [negb].
-           ++ apply Z.eqb_eq in S3. destruct a as [a |]; [| exfalso; apply (OK1 S3); reflexivity].
-              right. eexists. eexists. split; [reflexivity |]. cbn. repeat split; try (intro; discriminate); auto.
-           ++ right. eexists. eexists. split; [reflexivity |]. cbn. repeat split; auto.
+    + destruct a; [left; eauto |]. done_ok.
+    + destruct (is_tok T_NAME "in" t) eqn:I; [done_ok |].
+      change (negb (S_START_SOON =? S_RUNNING)) with true. cbn iota. done_ok.
+  - destruct (s =? S_NOT_RUNNING) eqn:S1; [done_ok |].
+    apply Z.eqb_neq in S1. specialize (OK2 S1). destruct f as [p |]; [| exfalso; apply OK2; reflexivity].
+    destruct (is_tok T_OP ":" t) eqn:C.
+    + destruct a; [left; eauto |]. done_ok.
+    + destruct (is_tok T_NAME "in" t) eqn:I; [done_ok |].
+      destruct (s =? S_RUNNING) eqn:S3; cbn [negb]; [| done_ok].
+      destruct (is_layout t) eqn:L; [left; eauto |].
+      apply Z.eqb_eq in S3. destruct a as [a |]; [| exfalso; apply (OK1 S3); reflexivity].
+      done_ok.
 Qed.
 
 (* HexStringParser never fails (its three asserts are unreachable); four possible moves *)
@@ -282,7 +290,7 @@ Section Structure.
       [rewrite E' in E; discriminate |].
     rewrite E' in E. injection E as <-.
     destruct OK as [FO HO].
-    destruct (for_consume_cases (m_fp S st) t FO) as [(l & c & m & X) | (fp' & b & X & _ & FOR & ANN)];
+    destruct (for_consume_cases (m_fp S st) t FO) as [(l & c & m & X) | (fp' & b & X & _ & FOR & ANN & LAY)];
       [rewrite X in FC; discriminate |].
     rewrite X in FC. injection FC as -> ->.
     (* facts about the for-parser part *)
@@ -405,3 +413,101 @@ Qed.
 
 Lemma Rew_length : forall i o, Rew i o -> (List.length o <= List.length i)%nat.
 Proof. induction 1; cbn; lia. Qed.
+
+(* ---------- line / block structure is preserved: every NEWLINE / INDENT / DEDENT / ENDMARKER of the input is in the
+   output, in order, and nothing else of that kind -- so tokenize.untokenize's INDENT/DEDENT stack stays balanced *)
+Section Layout.
+  Variable S : Type.
+  Variable hook : string -> pos -> S -> pres S.
+  Hypothesis hook_user_facing : forall s p st, user_facing (hook s p st).
+
+  Definition lay (l : list token) : list token := filter is_layout l.
+  Definition Lay (pre : list token) (st : ms S) : Prop :=
+    lay (m_res _ st ++ hp_toks (m_hp _ st)) = lay pre.
+
+  Lemma lay_app : forall a b, lay (a ++ b) = lay a ++ lay b.
+  Proof. intros. unfold lay. apply filter_app. Qed.
+  Lemma lay_one_not : forall t, is_layout t = false -> lay [t] = [].
+  Proof. intros t H. unfold lay. cbn [filter]. rewrite H. reflexivity. Qed.
+
+  Lemma rewr_layout : forall t t', rewr t t' -> lay [t'] = lay [t].
+  Proof.
+    intros t t' (_ & _ & [-> | (N' & N & _)]); [reflexivity |].
+    rewrite !lay_one_not; [reflexivity | apply name_not_layout; assumption | apply name_not_layout; assumption].
+  Qed.
+
+  Lemma step_layout : forall pre st t st', ms_ok S st -> Lay pre st -> step S hook st t = POk st' -> Lay (pre ++ [t]) st'.
+  Proof.
+    intros pre st t st' OK L E. unfold Lay in *.
+    destruct (step_cases S hook hook_user_facing st t OK) as [(c & l & k & m & E') | (st2 & kw & cols & toks & b1 & E' & OK' & EA & KP & EK & EC & FC & REST)];
+      [rewrite E' in E; discriminate |].
+    rewrite E' in E. injection E as <-. destruct OK as [FO HO].
+    destruct (for_consume_cases (m_fp S st) t FO) as [(l & c & m & X) | (fp' & b & X & _ & _ & _ & LAY)];
+      [rewrite X in FC; discriminate |].
+    rewrite X in FC. injection FC as -> ->.
+    assert (exists t', toks = [t'] /\ rewr t t') as (t' & -> & RW).
+    { destruct (kw_part_cases S st t _ _ _ _ KP) as [(_ & ->) | (nk & vty & N & K & _ & -> & INK)].
+      - exists t. split; [reflexivity | apply rewr_refl].
+      - eexists. split; [reflexivity |]. unfold rewr. cbn. repeat split; auto. }
+    rewrite (lay_app pre [t]). destruct REST as [(B & ER & EH) | (B & res' & b2 & HC & ER)].
+    - pose proof (lay_one_not t (LAY B)) as NL. rewrite ER, EH, L, NL, app_nil_r. reflexivity.
+    - destruct (hex_consume_cases (m_hp S st) t (m_res S st) HO) as (hp' & res2 & b3 & HC' & _ & MOVES).
+      rewrite HC' in HC. injection HC as H1 H2 H3. subst hp' res2 b3.
+      destruct MOVES as [(-> & T0 & XT & -> & T1 & L1) | [(-> & T0 & SAME & ->) | [(-> & (x & T0 & ->) & T1 & L1 & NS) | (-> & (x & T0) & ST & -> & T1 & L1)]]].
+      + rewrite ER, T1. rewrite T0, app_nil_r in L. rewrite lay_app, L. reflexivity.
+      + rewrite ER, SAME, T0, app_nil_r. rewrite T0, app_nil_r in L. rewrite lay_app, L, (rewr_layout _ _ RW). reflexivity.
+      + rewrite ER, T1, app_nil_r. rewrite T0 in L. rewrite lay_app, L, (rewr_layout _ _ RW). reflexivity.
+      + rewrite ER, T1, app_nil_r. rewrite T0 in L.
+        destruct HO as [[_ HT] | [_ (x0 & HT & HX)]]; [rewrite HT in T0; discriminate T0 |].
+        rewrite T0 in HT. injection HT as ->.
+        assert (is_layout x0 = false) as NX.
+        { unfold is_tok in HX. apply andb_prop in HX as [HX _]. apply Z.eqb_eq in HX. apply name_not_layout. exact HX. }
+        rewrite lay_app, (lay_one_not x0 NX), app_nil_r in L. rewrite lay_app, L. reflexivity.
+  Qed.
+
+  Lemma run_from_layout : forall ts pre st st', ms_ok S st -> Lay pre st -> run_from S hook st ts = POk st' ->
+    Lay (pre ++ ts) st'.
+  Proof.
+    induction ts as [| t r IH]; intros pre st st' OK L E.
+    - cbn in E. injection E as <-. rewrite app_nil_r. exact L.
+    - cbn [PreParse.run_from] in E. destruct (step S hook st t) as [st1 | e] eqn:ST; [| discriminate E]. cbn [pbind] in E.
+      pose proof (step_layout pre st t st1 OK L ST) as L1.
+      assert (ms_ok S st1) as OK1.
+      { destruct (step_cases S hook hook_user_facing st t OK) as [(c & l & k & m & E') | (st2 & kw & cols & toks & b1 & E' & OK' & _)];
+          rewrite E' in ST; [discriminate | injection ST as <-; exact OK']. }
+      replace (pre ++ t :: r) with ((pre ++ [t]) ++ r) by (rewrite <- app_assoc; reflexivity).
+      eapply IH; eauto.
+  Qed.
+
+  (* a pending `x` is a NAME: it never belongs to the layout *)
+  Theorem run_layout_model : forall s0 ts st, run S hook s0 ts = POk st -> lay (m_res _ st) = lay ts.
+  Proof.
+    intros s0 ts st E. unfold run in E.
+    assert (ms_ok S st) as OKF.
+    { destruct (run_from_inv S hook hook_user_facing ts [] _ _ (ms_init_ok S s0) (Inv_init S s0) E) as [_ OK]. exact OK. }
+    pose proof (run_from_layout ts [] _ _ (ms_init_ok S s0) eq_refl E) as L. unfold Lay in L. cbn [app] in L.
+    rewrite lay_app in L. destruct OKF as [_ [[_ HT] | [_ (x & HT & HX)]]]; rewrite HT in L.
+    - cbn in L. rewrite app_nil_r in L. exact L.
+    - unfold is_tok in HX. apply andb_prop in HX as [HX _]. apply Z.eqb_eq in HX.
+      rewrite (lay_one_not x (name_not_layout x HX)), app_nil_r in L. exact L.
+  Qed.
+End Layout.
+
+(* INDENT/DEDENT balance (what tokenize.untokenize needs) only depends on the layout subsequence *)
+Fixpoint indent_balanced (ts : list token) (depth : nat) : bool :=
+  match ts with
+  | [] => true
+  | t :: r => if ttyp t =? T_INDENT then indent_balanced r (Datatypes.S depth)
+              else if ttyp t =? T_DEDENT then match depth with O => false | Datatypes.S d => indent_balanced r d end
+              else indent_balanced r depth
+  end.
+
+Lemma indent_balanced_lay : forall ts d, indent_balanced (filter is_layout ts) d = indent_balanced ts d.
+Proof.
+  induction ts as [| t r IH]; intro d; [reflexivity |]. cbn [filter].
+  destruct (is_layout t) eqn:L; cbn [indent_balanced].
+  - destruct (ttyp t =? T_INDENT); [apply IH |]. destruct (ttyp t =? T_DEDENT); [destruct d; [reflexivity | apply IH] | apply IH].
+  - unfold is_layout, z_in in L. cbn [existsb] in L. repeat (apply orb_false_elim in L as [? L]).
+    match goal with H : (ttyp t =? T_INDENT) = false |- _ => rewrite H end.
+    match goal with H : (ttyp t =? T_DEDENT) = false |- _ => rewrite H end. apply IH.
+Qed.
